@@ -45,6 +45,10 @@ func opNames(r *rand.Rand, n int, tier string) {
 			}
 		}
 		txt := printDump(d, dVariant{FileIndent: "\t"}, true)
+		if r.Intn(6) == 0 {
+			// the dump is cut short by a stray line inside a later goroutine: a snapshot AND a parse error come back
+			txt += fmt.Sprintf("goroutine 999 [running]:\nmain.tail(0x%x, 0x%x)\nstray log line\n\t/a/tail.go:3 +0x1\n", pool[r.Intn(len(pool))], pool[r.Intn(len(pool))])
+		}
 		emitNames(fmt.Sprintf("names-%d", i), []byte(txt))
 	}
 }
